@@ -208,17 +208,62 @@ def anns_true(anns, den):
     return false
 
 
+def getitem_attribution(case, ans):
+    """-> (clauses, unexplained).  The recorded clauses of the INDEXING step that explain, entry by entry, where the code
+    model's answer differs from NumPy indexing of the represented matrix (`den`, printed by the driver), and a description
+    of the part of the difference that no clause explains (None if everything is explained).
+
+    * `getitem-array-pair-outer`: two integer ARRAYS; NumPy pairs them (a vector), the code returns an operator.  Attributed
+      only if that operator IS the outer (`np.ix_`) selection `den[ia][:, ja]` -- shape and entries.
+    * `sliced-repeated-index`: the returned `Sliced` operator repeats a resolved index.  Attributed only to entries in a
+      repeated row / column position: an entry that differs from the outer selection anywhere else is unexplained."""
+    ids, code, den = case["ids"], ans["code"], ans.get("den")
+    rows, cols = ans.get("rows", 0), ans.get("cols", 0)
+
+    def positions(j, n):
+        if "a" in j:
+            if any(not -n <= x < n for x in j["a"]):
+                return None
+            return [x % n for x in j["a"]]
+        if "s" in j:
+            return list(range(*slice(*j["s"]).indices(n)))
+        return None
+    if len(ids) != 2 or code.get("kind") != "op" or den is None:
+        return [], "the answer of the code model is not an operator selected by two index objects"
+    ia, ja = positions(ids[0], rows), positions(ids[1], cols)
+    if ia is None or ja is None:
+        return [], "an index is out of range, the code model answered with an operator"
+    if code.get("rows") != len(ia) or code.get("cols") != len(ja):
+        return [], "the returned operator does not have the shape of the outer selection"
+    outer = [[den[i][j] for j in ja] for i in ia]
+    val = code["value"]
+    dup_r = {p for p, i in enumerate(ia) if ia.count(i) > 1}
+    dup_c = {q for q, j in enumerate(ja) if ja.count(j) > 1}
+    diff = [(p, q) for p in range(len(ia)) for q in range(len(ja)) if val[p][q] != outer[p][q]]
+    clauses = []
+    if all("a" in j for j in ids):
+        clauses.append("getitem-array-pair-outer")
+    if diff:
+        if all(p in dup_r or q in dup_c for (p, q) in diff):
+            clauses.append("sliced-repeated-index")
+        else:
+            bad = [pq for pq in diff if pq[0] not in dup_r and pq[1] not in dup_c]
+            return clauses, f"entries {bad[:4]} of the returned operator differ from the outer selection outside repeated indices"
+    return clauses, None
+
+
 def case_clauses(case, ans):
+    """the recorded clauses that explain a `real = code != spec` outcome of this case; [] = none does (a VIOLATION).
+    Tree-level clauses come from the driver (`Op.clauses` of the operator the call is made on); the clauses of the
+    indexing step itself are attributed entry by entry (`getitem_attribution`)."""
     cl = list(ans.get("clauses", []))
     if case["call"] == "getitem":
-        if len(case["ids"]) == 2 and all("a" in j for j in case["ids"]):
-            cl.append("getitem-array-pair-outer")
-        dims = [ans.get("rows", 0), ans.get("cols", 0)]
-        for pos, j in enumerate(case["ids"]):
-            if "a" in j and dims[pos] > 0:
-                w = [x % dims[pos] for x in j["a"]]
-                if len(set(w)) < len(w) and "sliced-repeated-index" not in cl:
-                    cl.append("sliced-repeated-index")
+        got, unexplained = getitem_attribution(case, ans)
+        if unexplained is None:
+            cl += [c for c in got if c not in cl]
+        elif not cl:
+            # no clause of the tree, and the indexing clauses do not explain (all of) the difference
+            return []
     return cl
 
 
@@ -226,8 +271,9 @@ def observations(case, ans, real):
     """-> (real_obs, code_obs, spec_obs): dicts; real must equal code on all keys of code, and
     code must equal spec on all keys of spec"""
     call = case["call"]
-    # dtype: real (cola object / returned array) = code model (`Op.dtype`, `Op.mmDtype`: what the constructors and the
-    # products compute) = specification (`Op.dtypeSpec`, `Op.mmDtypeSpec`: join of the leaf dtypes and the operand's)
+    # dtype: real (cola object / returned array) = code model (`Op.dtype`: what the constructors compute; `resdt` = `Op.mmDt` /
+    # `Op.rmmDt`, Model/MatmatDtype.lean: what each class's `_matmat` / `_rmatmat` does with dtypes, by recursion over the tree)
+    # = specification (`Op.dtypeSpec`, `Op.mmDtypeSpec`: join of the leaf dtypes and the operand's)
     if call in ("matmat", "rmatmat", "dense"):
         code = {"v": ans["code"], "shape": [ans["rows"], ans["cols"]], "dtype": ans["dtype"], "resdt": ans["resdt"]}
         if case.get("vec"):
@@ -476,6 +522,7 @@ class Engine:
         self.shape_hist = collections.Counter()
         self.distinct = set()
         self.samples = []
+        self.not_compared = collections.Counter()
         self.nid = 0
         self.in_search = False
         self.known = common.known_clauses(ctx.prop)
@@ -645,12 +692,17 @@ class Engine:
             self.distinct.add(common.canon([c["op"], c["call"], c.get("x"), c.get("vec"), c.get("xdt"), c.get("tower"), c.get("ids")]))
         if st == "ok" and len(self.samples) < 3 and nontrivial(c) and len(json.dumps(c)) < 900:
             self.samples.append({"case": c, "model_answer": {k: a.get(k) for k in ("code", "skel", "anns") if k in a}})
+        if st in ("driver-error", "skipped", "inexact"):
+            self.not_compared[f"{st}: {str(det)[:80]}" if det else st] += 1
         if st == "known?":
             unknown = [cl for cl in det if cl not in self.known]
             if not det or unknown:
-                common.violation(ctx, {"case": c, "model_code": a.get("code"), "spec": a.get("spec"), "real": real,
-                                       "why": "real = code model, but differs from the specification and no recorded finding covers it",
-                                       "clauses": det})
+                payload = {"case": c, "model_code": a.get("code"), "spec": a.get("spec"), "real": real,
+                           "why": "real = code model, but differs from the specification and no recorded finding covers it",
+                           "clauses": det}
+                if c["call"] == "getitem":
+                    payload["indexing_clauses"], payload["unexplained"] = getitem_attribution(c, a)
+                common.violation(ctx, payload)
             else:
                 for cl in det:
                     common.known_finding(ctx, cl, self.known[cl]["what"])
